@@ -8,7 +8,7 @@
    no_collision : executable hypothesis - line hashes are injective over everything registered or
                 executing, registered code objects have distinct bytecode hashes *)
 From Coq Require Import List ZArith Bool.
-From LP Require Import Trace.ZMap Trace.Concrete Trace.Abstract Trace.AbstractFacts Trace.Main Trace.Witness.
+From LP Require Import Trace.ZMap Trace.Concrete Trace.Abstract Trace.AbstractFacts Trace.Main Trace.Witness Trace.Stats Trace.Report.
 Import ListNotations.
 Open Scope Z_scope.
 
@@ -51,3 +51,14 @@ Theorem C01_selfdisable_drops_line :
   executed selfdis_codes 0 selfdis_ops 0 2 = 1 /\ dropped selfdis_codes 0 selfdis_ops 0 2 = 1
   /\ reported_hits (run selfdis_codes 0 0 selfdis_ops) 0 2 = 0.
 Proof. exact selfdisable_drops. Qed.
+
+(* the link to what the user sees: an entry (l, h, t) shown by get_stats under the label of a code
+   object c (when no other registered code object carries that label) is reported_hits / reported_time
+   of c - so C01_hits_exact speaks about the numbers in the report, for every run *)
+Theorem C01_report_shows_reported :
+  forall codes tick ops c ents l h t,
+    (forall ch, In ch (chm (run codes tick 0 ops)) ->
+                c_lbl (nth_code codes (fst ch)) = c_lbl (nth_code codes c) -> fst ch = c) ->
+    In (c_lbl (nth_code codes c), ents) (get_stats codes (run codes tick 0 ops)) -> In (l, h, t) ents ->
+    h = reported_hits (run codes tick 0 ops) c l /\ t = reported_time (run codes tick 0 ops) c l.
+Proof. exact snapshot_shows_reported. Qed.
